@@ -171,7 +171,8 @@ def run(ctx):
     ctx.proofs()
     hx = ctx.go_build("c11")
     nseq = 300 if ctx.quick() else 20000
-    recs = ctx.jsonl([hx, "-seed", str(ctx.seed), "-nseq", str(nseq)])
+    nbands = 24 if ctx.quick() else 150
+    recs = ctx.jsonl([hx, "-seed", str(ctx.seed), "-nseq", str(nseq), "-bands", str(nbands)], timeout=1800)
     pool = sorted([r for r in recs if r["kind"] == "pool"], key=lambda r: r["i"])
     rows = {r["i"]: r["r"] for r in recs if r["kind"] == "row"}
     members = [r for r in recs if r["kind"] == "member"]
@@ -199,11 +200,33 @@ def run(ctx):
     # ---- sample for Coq
     rnd = random.Random(ctx.seed)
     pairs = [(i, i) for i in range(n)]
-    allp = [(i, j) for i in range(n) for j in range(n) if i != j]
-    if ctx.quick():
-        pairs += rnd.sample(allp, 300)
-    else:
-        pairs += rnd.sample(allp, 9000)
+    # magnitude bands 2^53..2^1023: [float, equal int, int+1, int-1, float+ulp, float-ulp, int(float+ulp), ...]
+    groups = {}
+    for p in pool:
+        if p.get("grp", -1) >= 0:
+            groups.setdefault(p["grp"], []).append(p["i"])
+    band_pairs = []
+    for g, mem_ in sorted(groups.items()):
+        if ctx.quick():
+            core = mem_[:3]
+            band_pairs += [(a, b) for a in core for b in core if a != b]
+            if len(mem_) >= 7:
+                band_pairs += [(mem_[0], mem_[4]), (mem_[4], mem_[6]), (mem_[6], mem_[4])]
+        else:
+            band_pairs += [(a, b) for a in mem_ for b in mem_ if a != b]
+    pairs += band_pairs
+    chosen = set(pairs)
+    want = len(pairs) + (200 if ctx.quick() else 6000)
+    nbase = sum(1 for p in pool if p.get("grp", -1) < 0)
+    while len(pairs) < want:
+        # two thirds of the random pairs from the base pool (all kinds), one third anywhere
+        if rnd.random() < 0.67:
+            q = (rnd.randrange(nbase), rnd.randrange(nbase))
+        else:
+            q = (rnd.randrange(n), rnd.randrange(n))
+        if q[0] != q[1] and q not in chosen:
+            chosen.add(q)
+            pairs.append(q)
     terms, refs = [], []
     for (i, j) in pairs:
         row = rows[i][6 * j:6 * j + 6]
@@ -222,8 +245,11 @@ def run(ctx):
         for j in atoms:
             if m["dict"][j] in "TF":
                 mem.append((i, j, m["dict"][j] == "T", m["set"][j] == "T"))
+    band_mem = [q for q in mem if any(q[0] in g_[:2] and q[1] in g_[:2] for g_ in groups.values())]
     if ctx.quick():
-        mem = rnd.sample(mem, min(len(mem), 200))
+        mem = band_mem + rnd.sample(mem, min(len(mem), 120))
+    else:
+        mem = band_mem + rnd.sample(mem, min(len(mem), 4000))
     for (i, j, d, s) in mem:
         if d != s:
             ctx.finding("member:dict-vs-set", "dict and set membership disagree for key %s probe %s" % (pool[i]["v"], pool[j]["v"]), {"x": pool[i]["v"], "y": pool[j]["v"]})
@@ -279,7 +305,7 @@ def run(ctx):
     cov = {
         "evaluations": n * n * 6 + st["triples_checked"] + len(sorts) + len(minmaxes) + len(members) * n,
         "distinct_nontrivial": len(set(terms)),
-        "rule": "pool of %d values (bools, ints/floats of equal magnitude across representations, +-0, NaN, +-inf, strings/bytes below and above 12 bytes, tuples/lists nested to depth 9..12 around the limit 10, ranges, structs, functions, builtins, times, durations, dicts, sets): ALL ordered pairs x 6 operators, ALL triples, hashes, membership in {x:1} and set([x]) and one dict of everything are checked against the algebraic laws in Go; %d random sequences under sorted/min/max with/without key and reverse; distinct_nontrivial = distinct cases evaluated inside Coq against C11.Model (correspondence) and C11.Spec (oracle)" % (n, len(sorts)),
+        "rule": "pool of %d values (bools, ints/floats of equal magnitude across representations, +-0, NaN, +-inf, %d magnitude bands between 2^53 and 2^1023 (integral float with a random odd mantissa, the equal int, int+-1, float+-1ulp), strings/bytes below and above 12 bytes, tuples/lists nested to depth 9..12 around the limit 10, ranges, structs, functions, builtins, times, durations, dicts, sets): ALL ordered pairs x 6 operators, ALL triples of the base pool and every triple containing two values of one band, hashes, membership in {x:1} and set([x]) and one dict of everything are checked against the algebraic laws in Go; %d random sequences under sorted/min/max with/without key and reverse; distinct_nontrivial = distinct cases evaluated inside Coq against C11.Model (correspondence) and C11.Spec (oracle)" % (n, len(groups), len(sorts)),
         "samples": refs[:2] + refs[len(refs) // 2: len(refs) // 2 + 2] + refs[-2:],
         "distribution": dist,
         "go_law_violations": st["violations"], "triples_checked_in_go": st["triples_checked"],
